@@ -1,13 +1,19 @@
 //! `mc` — model-checking harness for hyperium/tonic. See /verif/DESIGN.md.
 #![allow(clippy::type_complexity, dead_code, unused_imports)]
 
+mod alloc;
 mod env;
+
 mod explore;
+mod fixtures;
 mod oracle;
 mod props;
 mod report;
 
 use report::Tier;
+
+#[global_allocator]
+static GLOBAL: alloc::TrackAlloc = alloc::TrackAlloc;
 
 fn usage() -> ! {
     eprintln!("usage: mc <ID> [quick|thorough] [--replay <file>]");
